@@ -91,6 +91,18 @@ def cases():
     out.append(Case('fusion/groups', LP.format(body='  !$loki loop-fusion group(g1)\n  do i=1,n\n    a(i) = b(i)\n  end do\n  !$loki loop-fusion group(g2)\n  do j=1,m\n    c(1,j) = 1.\n  end do\n  !$loki loop-fusion group(g1)\n  do i=1,n\n    a(i) = a(i)*2. + b(i)\n  end do\n  !$loki loop-fusion group(g2)\n  do j=1,m\n    c(2,j) = c(2,j) + 2.\n  end do'), 'k', S, fusion, 'loop-fusion'))
     out.append(Case('fusion/statement-between', LP.format(body='  !$loki loop-fusion\n  do i=1,n\n    a(i) = b(i)\n  end do\n  t = 2.\n  !$loki loop-fusion\n  do i=1,n\n    c(i,1) = b(i)*3.\n  end do\n  c(1,2) = t'), 'k', S, fusion, 'loop-fusion'))
     out.append(Case('fusion/different-var-names', LP.format(body='  !$loki loop-fusion\n  do i=1,n\n    a(i) = b(i)\n  end do\n  !$loki loop-fusion\n  do j=1,n\n    c(j,1) = b(j)\n  end do'), 'k', S, fusion, 'loop-fusion'))
+    # collapse(2): nests whose loop variables are renamed to the leader's; names of the follower overlap the leader's at other levels
+    LP2 = LP.replace('integer :: i, j', 'integer :: i, j, ii, jj').replace('real, intent(inout) :: a(n), c(n, m)', 'real, intent(inout) :: a(n), c(n, m), d(n, m)').replace('subroutine k(n, m, a, b, c)', 'subroutine k(n, m, a, b, c, d)')
+    for nm, (o1, i1), (o2, i2) in (('same-names', ('i', 'j'), ('i', 'j')), ('new-names', ('i', 'j'), ('ii', 'jj')),
+                                   ('inner-reuses-outer-name', ('i', 'j'), ('ii', 'i')), ('swapped-names', ('i', 'j'), ('j', 'i')),
+                                   ('outer-reuses-inner-name', ('i', 'j'), ('j', 'jj'))):
+        body = (f'  !$loki loop-fusion collapse(2)\n  do {o1}=1,n\n    do {i1}=1,m\n      c({o1}, {i1}) = b({o1}) + {i1}\n    end do\n  end do\n'
+                f'  !$loki loop-fusion collapse(2)\n  do {o2}=1,n\n    do {i2}=1,m\n      d({o2}, {i2}) = 100.*{o2} + {i2} + b({o2})\n    end do\n  end do')
+        out.append(Case(f'fusion/collapse2-{nm}', LP2.format(body=body), 'k', S, fusion, 'loop-fusion'))
+    body3 = ('  !$loki loop-fusion collapse(2)\n  do i=1,n\n    do j=1,m\n      c(i, j) = b(i)\n    end do\n  end do\n'
+             '  !$loki loop-fusion collapse(2)\n  do ii=1,n\n    do i=1,m\n      d(ii, i) = 10.*ii + i\n    end do\n  end do\n'
+             '  !$loki loop-fusion collapse(2)\n  do j=1,n\n    do ii=1,m\n      d(j, ii) = d(j, ii) + c(j, ii)*ii - j\n    end do\n  end do')
+    out.append(Case('fusion/collapse2-three-nests-rotating-names', LP2.format(body=body3), 'k', S, fusion, 'loop-fusion'))
     out.append(Case('fusion/range-pragma', LP.format(body='  !$loki loop-fusion range(1:n)\n  do i=1,n\n    a(i) = b(i)\n  end do\n  !$loki loop-fusion range(1:n)\n  do i=1,n-1\n    c(i,1) = b(i)\n  end do'), 'k', S, fusion, 'loop-fusion'))
     # ---- fission (no dependence across the fission point other than promoted scalars)
     out.append(Case('fission/independent', LP.format(body='  do i=1,n\n    a(i) = b(i) + 1.\n    !$loki loop-fission\n    c(i,1) = b(i)*2.\n  end do'), 'k', S, fission, 'loop-fission'))
